@@ -97,6 +97,15 @@ def strategy(ctx):
                     entries.append(['ref', j, k])
                     values.append(values[j] + k)
                     continue
+            if c == 7 and draw(st.booleans()):
+                # a character constant (type int in C): plain characters, among them the letters and digits
+                # that also name escape sequences, and the simple escapes themselves
+                ch = draw(st.sampled_from(list("ntrabfv01234567") + list("Az9 !~#x\"{") + ['\\n', '\\t', '\\0', '\\\\', "\\'", '\\a', '\\7']))
+                v = _CHAR_VALUES[ch] if ch in _CHAR_VALUES else ord(ch)
+                if admissible(v):
+                    entries.append(['chr', ch])
+                    values.append(v)
+                    continue
             if c == 6:
                 # a quotient or remainder, of an earlier enumerator or of a literal (operands of one sign
                 # regime, so that the C value is the truncating mathematical one whatever the C types are)
@@ -128,6 +137,9 @@ def strategy(ctx):
     return st.integers(1, BATCH[ctx.tier]).flatmap(lambda n: st.lists(enum(), min_size=n, max_size=n))
 
 
+_CHAR_VALUES = {'\\n': 10, '\\t': 9, '\\0': 0, '\\\\': 92, "\\'": 39, '\\a': 7, '\\7': 7}
+
+
 def _cdivmod(a, d, op):
     """C's truncating division / its remainder (d > 0)"""
     q = abs(a) // d
@@ -143,6 +155,8 @@ def values_of(e):
             vals.append(vals[-1] + 1 if vals else 0)
         elif ent[0] == 'lit':
             vals.append(ent[1])
+        elif ent[0] == 'chr':
+            vals.append(_CHAR_VALUES[ent[1]] if ent[1] in _CHAR_VALUES else ord(ent[1]))
         elif ent[0] == 'refdiv':
             vals.append(_cdivmod(vals[ent[1]], ent[3], ent[2]))
         elif ent[0] == 'litdiv':
@@ -168,6 +182,8 @@ def render(e, k):
             parts.append(name)
         elif ent[0] == 'lit':
             parts.append('%s = %s' % (name, _lit(ent[1], ent[2])))
+        elif ent[0] == 'chr':
+            parts.append("%s = '%s'" % (name, ent[1]))
         elif ent[0] == 'refdiv':
             parts.append('%s = E%d_%d %s %d' % (name, k, ent[1], ent[2], ent[3]))
         elif ent[0] == 'litdiv':
@@ -286,6 +302,8 @@ def prop(batch, ctx):
             cls.append('duplicate-values')
         if implicit_after_explicit:
             cls.append('implicit-after-explicit')
+        if any(ent[0] == 'chr' for ent in e['entries']):
+            cls.append('character-constant')
         if any(ent[0] in ('refdiv', 'litdiv') for ent in e['entries']):
             cls.append('quotient-or-remainder-expression')
             if any(ent[0] == 'litdiv' and abs(ent[1]) > 2 ** 53 or
